@@ -22,6 +22,7 @@ from vlib import common, gen, c06_gen, c06_oracle, c06_spec_oracle, c07_lib, str
 from vlib import convcases as cc
 
 PID = "C07"
+RL_TIMEOUT = 1200        # per shard of one run_lines call; the sizing below keeps every call far inside it
 TUPLES = c06_gen.OPTION_TUPLES            # (version, strtbl, keep, anon)
 
 
@@ -65,7 +66,8 @@ def sources(ctx, tj, quick):
     docs = c06_gen.documents(tj, common.Rng(ctx.seed, 7), quick)
     if quick:
         # every text / attribute document, every third tag document
-        docs = [d for i, d in enumerate(docs) if (d[1] != "tags" and i % 2 == ctx.seed % 2) or i % 5 == ctx.seed % 5 or d[1] == "embedded"]
+        docs = [d for i, d in enumerate(docs) if (d[1] != "tags" and i % 2 == ctx.seed % 2) or i % 5 == ctx.seed % 5 or d[1] == "embedded"
+                or (d[0] in (1301, 1701, 1901) and d[1] == "attrs")]      # typed (opaque) attribute values: every run, all versions
     for lid, kind, x, _ in docs:
         if kind != "boundary":           # 16 k-octet payloads: C06's subject, slow under the leak-checking harness
             out.append((kind, lid, x))
@@ -105,12 +107,12 @@ def run(ctx):
 
     # ---- language of each source and the tree-API bytes ------------------------------------------------
     l6 = ["%s %d %d %d %d" % ((x.hex(),) + o) for _, _, x in srcs for o in TUPLES]
-    a6, cr6 = common.run_lines(h06, l6)
+    a6, cr6 = common.run_lines(h06, l6, timeout=RL_TIMEOUT)
     # ---- A: the public entry points, all 32 tuples -------------------------------------------------------
     lA = [cc.x2w_line(x, api="run", version=o[0], strtbl=o[1], keep=o[2], anon=o[3], dump=1) for _, _, x in srcs for o in TUPLES]
-    aA, crA = common.run_lines(h01, lA)
+    aA, crA = common.run_lines(h01, lA, timeout=RL_TIMEOUT)
     lW = [cc.x2w_line(x, api="withlen", version=o[0], strtbl=o[1], keep=o[2], anon=o[3], dump=1) for _, _, x in srcs[::WL] for o in TUPLES]
-    aW, crW = common.run_lines(h01, lW)
+    aW, crW = common.run_lines(h01, lW, timeout=RL_TIMEOUT)
     for cr in cr6 + crA + crW:
         violations.append({"what": "crash-or-sanitizer-report", **cr})
     outs = {}                # (si, tuple) -> bytes or ("err", st)
@@ -152,7 +154,7 @@ def run(ctx):
             bump("withlen compared")
     # the proved strict decoder (Spec.decode_lang, driver C04) as a second, independent decoder
     d04 = common.build_driver("C04")
-    sa, _ = common.run_lines(d04, ["strict %d %s" % (L, wb.hex() if wb else "-") for wb, L in jobs])
+    sa, _ = common.run_lines(d04, ["strict %d %s" % (L, wb.hex() if wb else "-") for wb, L in jobs], timeout=RL_TIMEOUT)
     with ProcessPoolExecutor(common.NPROC, initializer=_init, initargs=(tj,)) as ex:
         decs = dict(zip(jkeys, ex.map(_decode, jobs, chunksize=64)))
         spec = dict(zip(jkeys, ex.map(_spec_canon, [(a, L) for a, (wb, L) in zip(sa, jobs)], chunksize=64)))
@@ -224,6 +226,63 @@ def run(ctx):
                 if n_ok == 16:
                     groups16 += 1
 
+    # ---- A': every tuple is also decoded WITH THE LIBRARY (wbxml2xml, compact, same keep-ws; the language is forced where
+    #      the document does not identify it): all must decode, to the same pyexpat infoset ------------------------------
+    lL, kL = [], []
+    for (si, o), w in outs.items():
+        if isinstance(w, bytes) and si in langs:
+            L = langs[si]
+            force = L if (o[3] or not [l for l in tj["langs"] if l["id"] == L][0]["pub_text"]) else 0
+            lL.append(cc.w2x_line(w, api="run", lang=force, gen=0, indent=0, keep=o[2], dump=1))
+            kL.append((si, o))
+    aL, crL = common.run_lines(h01, lL, timeout=RL_TIMEOUT)
+    for cr in crL:
+        violations.append({"what": "crash-or-sanitizer-report", **cr})
+    lib = {}
+    xj, xkk = [], []
+    for key, a in zip(kL, aL):
+        d = cc.parse_answer(a)
+        if d is None:
+            continue
+        if d["st"] != 0 or "out" not in d:
+            lib[key] = ("err", d["st"])
+        else:
+            xj.append(bytes.fromhex(d["out"]))
+            xkk.append(key)
+    with ProcessPoolExecutor(common.NPROC) as ex:
+        for key, r in zip(xkk, ex.map(_xinfo, xj, chunksize=64)):
+            lib[key] = r
+    lib_equal = 0
+    for si, (kind, lid, x) in enumerate(srcs):
+        for keep in (0, 1):
+            rs = [(o, lib[(si, o)]) for o in TUPLES if o[2] == keep and (si, o) in lib]
+            if not rs:
+                continue
+            okr = [(o, r) for o, r in rs if r[0] == "ok"]
+            bad = [(o, r) for o, r in rs if r[0] == "err"]
+            if bad and okr:
+                violations.append({"what": "library-decodes-only-some-option-tuples", "source_xml_hex": x.hex(), "lang": langs.get(si), "keep_ws": keep,
+                                   "refused": [(o, r[1]) for o, r in bad][:6], "decoded": [o for o, _ in okr][:6],
+                                   "wbxml_refused": outs[(si, bad[0][0])].hex()})
+                continue
+            if bad:
+                violations.append({"what": "library-refuses-its-own-output", "source_xml_hex": x.hex(), "lang": langs.get(si), "keep_ws": keep,
+                                   "status": bad[0][1][1], "options": bad[0][0], "wbxml": outs[(si, bad[0][0])].hex()})
+                continue
+            if not okr:
+                bump("library output not parsed by pyexpat in every tuple (C05)")
+                continue
+            if len(okr) != len(rs):
+                violations.append({"what": "library-output-well-formed-for-some-tuples-only", "source_xml_hex": x.hex(), "lang": langs.get(si), "keep_ws": keep})
+                continue
+            ref = okr[0]
+            diff = [(o, r) for o, r in okr[1:] if r != ref[1]]
+            if diff:
+                violations.append({"what": "options-change-meaning-library-decoding", "source_xml_hex": x.hex(), "lang": langs.get(si), "keep_ws": keep,
+                                   "options_a": ref[0], "options_b": diff[0][0], "difference": c07_lib.first_diff(ref[1], diff[0][1])})
+            else:
+                lib_equal += 1
+
     # ---- B: XML generation modes ---------------------------------------------------------------------------
     wdocs = []
     seen = set()
@@ -233,20 +292,29 @@ def run(ctx):
             if isinstance(w, bytes) and w not in seen and len(w) < 20000:
                 seen.add(w)
                 wdocs.append((si, o, w))
-    step = 4 if quick else 1
+    # sizing (leak-checking harness, ~25 ms CPU per line): quick = a quarter of the documents, the boundary set of indents on
+    # one in eight and four indents on the rest; thorough = every second document with the boundary set, ALL 256 indents on
+    # a sample of 40 documents (the 8-bit arithmetic is per document, not per content)
+    step = 4 if quick else 2
     wdocs = wdocs[ctx.seed % step::step]
-    indents = [0, 1, 2, 3, 4, 8, 127, 128, 255] if quick else list(range(256))
-    modes = [(0, 0, 0), (0, 0, 1), (2, 0, 0), (2, 0, 1), (0, 7, 1), (2, 9, 0)] + [(1, i, k) for i in indents for k in (0, 1)]
+    indents = [0, 1, 2, 3, 4, 8, 127, 128, 255] if quick else [0, 1, 2, 3, 4, 7, 8, 15, 16, 31, 32, 63, 64, 127, 128, 129, 254, 255]
+    base_modes = [(0, 0, 0), (0, 0, 1), (2, 0, 0), (2, 0, 1), (0, 7, 1), (2, 9, 0)]
+    modes = base_modes + [(1, i, k) for i in indents for k in (0, 1)]
+    all_modes = base_modes + [(1, i, k) for i in range(256) for k in (0, 1)]
+    full_every = max(1, len(wdocs) // 40)
     lB, kB = [], []
     for wi, (si, o, w) in enumerate(wdocs):
-        ms = modes if (not quick or wi % 8 == 0) else modes[:6] + [(1, i, k) for i in (0, 1, 2, 255) for k in (0, 1)]
+        if quick:
+            ms = modes if wi % 8 == 0 else base_modes + [(1, i, k) for i in (0, 1, 2, 255) for k in (0, 1)]
+        else:
+            ms = all_modes if (wi % full_every == 0 and len(w) < 4000) else modes
         for g, i, k in ms:
             # the language is forced where the document does not identify it (anonymous, or no public id at all)
             L = langs.get(si, 0)
             force = L if (o[3] or not [l for l in tj["langs"] if l["id"] == L][0]["pub_text"]) else 0
             lB.append(cc.w2x_line(w, api="run", lang=force, gen=g, indent=i, keep=k, dump=1))
             kB.append((wi, (g, i, k)))
-    aB, crB = common.run_lines(h01, lB)
+    aB, crB = common.run_lines(h01, lB, timeout=RL_TIMEOUT)
     for cr in crB:
         violations.append({"what": "crash-or-sanitizer-report", **cr})
     xjobs, xk = [], []
@@ -306,7 +374,7 @@ def run(ctx):
                 continue
             lC.append(cc.x2w_line(t, version=3, strtbl=1, keep=0, anon=0, dump=1))
             kC.append((si, enc, t))
-    aC, crC = common.run_lines(h01, lC)
+    aC, crC = common.run_lines(h01, lC, timeout=RL_TIMEOUT)
     for cr in crC:
         violations.append({"what": "crash-or-sanitizer-report", **cr})
     trans_equal = 0
@@ -322,7 +390,7 @@ def run(ctx):
         else:
             trans_equal += 1
 
-    evals = len(lA) + len(lW) + len(lB) + len(lC)
+    evals = len(lA) + len(lW) + len(lL) + len(lB) + len(lC)
     ctx.coverage.update({
         "evaluations": evals,
         "distinct_nontrivial": len(nontrivial),
@@ -330,12 +398,13 @@ def run(ctx):
                 "Sources = project corpus + documents synthesised from every language's tables (vlib/c06_gen.py, stream 7 of VERIF_SEED). "
                 "XML half: (WBXML document, generation mode, indent, keep-ws). Transcoding: (source, encoding).",
         "input_distribution": {"sources": len(srcs), "x2w_conv_object": len(lA), "x2w_withlen": len(lW), "w2x": len(lB), "transcoded": len(lC),
-                               "wbxml_documents_for_xml_half": len(wdocs), "indent_values": indents if quick else "0..255", **stats},
+                               "wbxml_documents_for_xml_half": len(wdocs), "indent_values": indents, "documents_with_all_256_indents": 0 if quick else sum(1 for wi, d in enumerate(wdocs) if wi % full_every == 0 and len(d[2]) < 4000), **stats},
         "samples": [{"source": srcs[si][2][:200].decode("utf-8", "replace"), "options": o, "wbxml": (outs[(si, o)].hex()[:120] if isinstance(outs.get((si, o)), bytes) else outs.get((si, o)))}
                     for si in range(0, len(srcs), max(1, len(srcs) // 8)) for o in ((3, 1, 0, 0), (0, 0, 1, 1))][:12],
         "traces_validated_against_impl": evals,
         "wbxml_groups_all_tuples_equal": groups_equal,
         "wbxml_groups_with_all_16_tuples": groups16,
+        "library_decoded_groups_all_tuples_equal": lib_equal,
         "xml_documents_all_modes_equal": xml_equal,
         "transcodings_byte_identical": trans_equal,
         "violations_found": len(violations),
